@@ -324,6 +324,8 @@ def obligations(prop):
         wrap(f"{prop}_G4_formulas", lambda: generate_formulas(prop), "source:formula")
     if prop in GUARDS:
         wrap(f"{prop}_G5_guards", lambda: generate_guards(prop), "source:guards")
+    if prop == "C18":
+        wrap("C18_G4_item_count", generate_item_count, "source:formula")
     return out
 
 
@@ -379,3 +381,37 @@ def generate_guards(prop, repo=None):
         lines.append("")
         detail.append({"site": f"{mod}.{fname}", "guards": conds})
     return "\n".join(lines), detail
+
+
+# G4 over Z: the per-item agreement count of irr.compute_ts
+def tr_z(node, names):
+    if isinstance(node, ast.Name):
+        if node.id not in names:
+            raise Unsupported(f"free name {node.id}")
+        return names[node.id]
+    if isinstance(node, ast.Constant) and isinstance(node.value, int) and not isinstance(node.value, bool):
+        return f"({node.value})"
+    if isinstance(node, ast.BinOp) and type(node.op) in (ast.Add, ast.Sub, ast.Mult):
+        op = {ast.Add: "+", ast.Sub: "-", ast.Mult: "*"}[type(node.op)]
+        return f"({tr_z(node.left, names)} {op} {tr_z(node.right, names)})"
+    raise Unsupported("not an integer polynomial: " + ast.unparse(node)[:80])
+
+
+def generate_item_count(repo=None):
+    repo = repo or os.environ.get("VERIF_REPO", "/repo")
+    fn = find_function(ast.parse(open(os.path.join(repo, "permute", "irr.py")).read()), "compute_ts")
+    expr = locate(fn, ("assign", "counts"))
+    body = tr_z(expr, {"y": "y", "R": "R"})
+    rho = locate(fn, ("assign", "rho_s"))
+    rho_body = tr_atoms(rho, {"Ns": "Ns", "R": "R"}, {"counts.sum()": "S"})
+    text = "\n".join([
+        "From Coq Require Import ZArith QArith Lia Lqa.", "From PV Require Import Lib.Base Model.Irr Lib.TailTables.", "",
+        "Open Scope Z_scope.",
+        f"Definition src_item_count (y R : Z) : Z := {body}.",
+        "Theorem G4_item_count : forall y R : Z, src_item_count y R = item_count R y.",
+        "Proof. intros. unfold src_item_count, item_count. ring. Qed.", "",
+        "Open Scope Q_scope.",
+        f"Definition src_rho (S Ns R : Q) : Q := {rho_body}.",
+        "Theorem G4_rho : forall S Ns R : Q, src_rho S Ns R == S / (Ns * R * (R - 1)).",
+        "Proof. intros. unfold src_rho. reflexivity. Qed.", ""])
+    return text, [{"site": "irr.compute_ts", "counts": ast.unparse(expr), "rho_s": ast.unparse(rho)}]
